@@ -431,6 +431,17 @@ def _consume(w, kid, npeer):
         # an id the server never had: take any valid key so that only the id is wrong
         pub = next(iter(w.directory.values()))
     up = w.uploads[-1]["node"]
+    if npeer % 2 == 1:
+        # every other peer fetched its bundle EARLIER: right after the first upload that offered this one-time key — the signed prekey (and its id)
+        # of that upload, not of the latest one (a key request of the server in between makes the account upload again with a new signed prekey)
+        for u in w.uploads:
+            try:
+                ids = [_id_of(k.getChild("id").data) for k in u["node"].getChild("list").getAllChildren()]
+            except Exception:
+                ids = []
+            if kid in ids:
+                up = u["node"]
+                break
     sk = up.getChild("skey")
     bundle = PreKeyBundle(mgr.registration_id, 1, kid, DjbECPublicKey(pub), _id_of(sk.getChild("id").data),
                           DjbECPublicKey(bytes(sk.getChild("value").data)), bytes(sk.getChild("signature").data),
@@ -444,6 +455,10 @@ def _consume(w, kid, npeer):
         w.directory.pop(kid, None)
         return "decryptOk:%d" % kid
     except exceptions.InvalidKeyIdException:
+        if kid in w.directory and w.directory[kid] == pub and not any(k == kid for k, _p in w.consumed):
+            # the server handed out a key the account offered and no first message has used yet, with the signed prekey of an upload that
+            # offered it: "every key id offered ... stays available locally until a first message consumes it"
+            w.unusable = getattr(w, "unusable", []) + [(kid, "the bundle of the %s upload that offered it" % ("latest" if up is w.uploads[-1]["node"] else "earlier"))]
         return "invalidKeyId:%d" % kid
     except exceptions.InvalidMessageException:
         return "invalidMessage:%d" % kid
@@ -451,6 +466,10 @@ def _consume(w, kid, npeer):
 
 def _oracle(w, rows):
     from axolotl.state.prekeyrecord import PreKeyRecord
+    if getattr(w, "unusable", None):
+        kid, how = w.unusable[0]
+        return ("C14:offered-key-unusable", "one-time key %d was offered, is still on the server and unused, but a first message built from %s is refused "
+                "with an invalid key id (a key the bundle names is no longer held locally)" % (kid, how))
     reused = set()
     first = {}
     for kid, pub in w.offered_hist:
